@@ -202,9 +202,198 @@ func c13TxCase(g *Gen) {
 	}
 }
 
+
+// c13TypedData: data payloads for every dataType, well-formed and malformed
+// (for the dataType-specific checks Verify() runs before the signature check).
+// Returns the dataType (nil = absent), the data (c13Absent = no data member),
+// whether the type-specific check is expected to pass, and a label.
+type c13AbsentT struct{}
+
+var c13Absent = c13AbsentT{}
+
+func c13TypedData(g *Gen) (dt interface{}, data interface{}, ok bool, what string) {
+	hexs := func(n int) string { return "0x" + hx(g.Bytes(n)) }
+	switch g.Intn(7) {
+	case 0: // plain transfer
+		if g.Intn(3) == 0 {
+			return c13Absent, c12RandValue(g, 2, false), true, "none-data"
+		}
+		return c13Absent, c13Absent, true, "none"
+	case 1: // message
+		switch g.Intn(4) {
+		case 0:
+			return "message", c12RandValue(g, 2, false), true, "message-anydata"
+		case 1:
+			return "message", c13Absent, true, "message-nodata"
+		default:
+			return "message", hexs(1 + g.Intn(20)), true, "message"
+		}
+	case 2: // call
+		switch g.Intn(10) {
+		case 0:
+			return "call", c12Obj{}, false, "call-no-method"
+		case 1:
+			return "call", c12Obj{{"method", ""}, {"params", c12Obj{}}}, false, "call-empty-method"
+		case 2:
+			return "call", c12Obj{{"method", c12Num("1")}}, false, "call-method-number"
+		case 3:
+			return "call", []interface{}{nil, "transfer", c12Num("5"), []interface{}{"a"}}[g.Intn(4)], false, "call-not-object"
+		case 4:
+			return "call", c13Absent, false, "call-nodata"
+		case 5:
+			return "call", c12Obj{{"method", []interface{}{"m"}}}, false, "call-method-list"
+		default:
+			return "call", c12CallData(g), true, "call"
+		}
+	case 3: // deploy
+		well := c12Obj{{"contentType", "application/zip"}, {"content", hexs(1 + g.Intn(30))}}
+		if g.Intn(2) == 0 {
+			well = append(well, c12KV{"params", c12Obj{{"name", "x"}}})
+		}
+		switch g.Intn(12) {
+		case 0:
+			return "deploy", c12Obj{{"contentType", "application/zip"}, {"content", "0xzz12"}}, false, "deploy-content-nothex"
+		case 1:
+			return "deploy", c12Obj{{"contentType", "application/zip"}, {"content", "0x123"}}, false, "deploy-content-odd"
+		case 2:
+			return "deploy", c12Obj{{"contentType", "application/zip"}, {"content", c12Num("12")}}, false, "deploy-content-number"
+		case 3:
+			return "deploy", c12Obj{{"contentType", c12Num("5")}, {"content", "0x00"}}, false, "deploy-contenttype-number"
+		case 4:
+			return "deploy", []interface{}{"0x1234", c12Num("7"), []interface{}{}}[g.Intn(3)], false, "deploy-not-object"
+		case 5:
+			return "deploy", c13Absent, false, "deploy-nodata"
+		case 6:
+			return "deploy", c12Obj{{"contentType", "application/java"}, {"content", nil}}, true, "deploy-content-null"
+		case 7:
+			return "deploy", c12Obj{{"params", c12Obj{}}}, true, "deploy-no-content"
+		case 8:
+			return "deploy", c12Obj{{"contentType", "x"}, {"content", "504B0304AB"}}, true, "deploy-content-no0x"
+		default:
+			return "deploy", well, true, "deploy"
+		}
+	case 4: // deposit
+		switch g.Intn(12) {
+		case 0:
+			return "deposit", c12Obj{{"action", "add"}, {"zzz", c12Num("1")}}, true, "deposit-unknown-field"
+		case 1:
+			return "deposit", c12Obj{{"action", "withdraw"}, {"amount", "xyz"}}, true, "deposit-amount-nothex"
+		case 2:
+			return "deposit", []interface{}{"add", c12Num("5"), []interface{}{"add"}, nil}[g.Intn(4)], true, "deposit-not-object"
+		case 3:
+			return "deposit", c12Obj{{"action", c12Num("5")}}, true, "deposit-action-number"
+		case 4:
+			return "deposit", c12Obj{{"action", "withdraw"}, {"id", "0xzz"}}, true, "deposit-id-nothex"
+		case 5:
+			return "deposit", c13Absent, false, "deposit-nodata"
+		case 6, 7:
+			return "deposit", c12Obj{{"action", "withdraw"}, {"id", hexs(32)}, {"amount", c12HexInt(g, true, false)}}, true, "deposit-withdraw"
+		case 8:
+			return "deposit", c12Obj{{"action", "withdraw"}}, true, "deposit-withdraw-all"
+		default:
+			return "deposit", c12Obj{{"action", "add"}}, true, "deposit-add"
+		}
+	case 5: // patch
+		switch g.Intn(8) {
+		case 0:
+			return "patch", c12Obj{{"type", "other"}, {"data", "AAEC"}}, false, "patch-unknown-type"
+		case 1:
+			return "patch", c12Obj{{"data", "AAEC"}}, false, "patch-no-type"
+		case 2:
+			return "patch", c12Obj{{"type", "skip_txs"}, {"data", "!!!"}}, false, "patch-data-notb64"
+		case 3:
+			return "patch", c13Absent, false, "patch-nodata"
+		case 4:
+			return "patch", []interface{}{"skip_txs", nil, c12Num("1")}[g.Intn(3)], false, "patch-not-object"
+		case 5:
+			return "patch", c12Obj{{"type", "skip_txs"}, {"data", nil}}, true, "patch-data-null"
+		default:
+			return "patch", c12Obj{{"type", "skip_txs"}, {"data", base64.StdEncoding.EncodeToString(g.Bytes(g.Intn(40)))}}, true, "patch"
+		}
+	default: // unknown dataType strings, dataType null
+		if g.Intn(3) == 0 {
+			return nil, c12RandValue(g, 1, false), true, "datatype-null"
+		}
+		return []string{"dsr", "base", "Call", "deposit ", ""}[g.Intn(5)], c12RandValue(g, 2, false), true, "datatype-unknown"
+	}
+}
+
+// c13TypedTxCase: every dataType (well-formed / malformed data) crossed with
+// signed by the sender / other key / changed after signing / malformed signature.
+func c13TypedTxCase(g *Gen) {
+	t := c12NewTx(g, false)
+	t.obj = c12Del(c12Del(t.obj, "dataType"), "data")
+	dt, data, dok, what := c13TypedData(g)
+	if dt != c13Absent {
+		t.obj = append(t.obj, c12KV{"dataType", dt})
+	}
+	if data != c13Absent {
+		t.obj = append(t.obj, c12KV{"data", data})
+	}
+	if dt == "deploy" {
+		switch g.Intn(6) {
+		case 0:
+			t.obj = c12Set(t.obj, "value", "0x1")
+			dok = false
+			what += "+value"
+		case 1:
+			t.obj = c12Set(t.obj, "value", "0x0")
+		default:
+			t.obj = c12Del(t.obj, "value")
+		}
+	}
+	emit := func(obj c12Obj, exp, sigWhat string) {
+		g.Emit("txverify %s %s %s/%s", hx([]byte(c12Text(g, g.Intn(3), obj))), exp, what, sigWhat)
+	}
+	switch g.Intn(8) {
+	case 0, 1, 2:
+		t.sign(g, 0)
+		exp := t.expect()
+		if !dok && exp == "v" {
+			exp = "n" // rejected by the data check (stricter than the property asks; asserted for the diff)
+		}
+		emit(t.obj, exp, "sender")
+	case 3:
+		t.sign(g, 4)
+		emit(t.obj, "n", "otherkey")
+	case 4:
+		t.sign(g, 0)
+		for tries := 0; tries < 10; tries++ {
+			m, same, w := c12Mutate(g, t)
+			if !same && !strings.HasPrefix(w, "data") && !strings.HasPrefix(w, "drop-data") {
+				emit(m, "n", "changed-"+w)
+				return
+			}
+		}
+		t.sign(g, 1)
+		emit(t.obj, "n", "absent")
+	case 5:
+		t.sign(g, g.Pick(1, 2, 3, 5))
+		emit(t.obj, "n", t.kind)
+	default:
+		t.sign(g, 0)
+		v, _ := c12Get(t.obj, "signature")
+		rsv, err := base64.StdEncoding.DecodeString(v.(string))
+		if err != nil || len(rsv) != 65 {
+			panic("c13: signature")
+		}
+		ms, rel, w := c13MutSig(g, rsv)
+		if rel == "same" || len(ms) == 63 || len(ms) == 66 {
+			ms = c13Flip(g, rsv, 0, 64)
+			w = "flip"
+		}
+		t.obj = c12Set(t.obj, "signature", base64.StdEncoding.EncodeToString(ms))
+		exp := "n"
+		if t.kind != "valid" {
+			exp = "u"
+		}
+		emit(t.obj, exp, "sig-"+w)
+	}
+}
+
 func c13Gen(g *Gen) {
 	for i := 0; i < g.N; i++ {
-		switch g.Intn(12) {
+		switch g.Intn(15) {
 		case 0:
 			n := g.Pick(0, 1, 32, 63, 64, 64, 65, 65, 65, 66, 128, 130)
 			b := g.Bytes(n)
@@ -265,13 +454,22 @@ func c13Gen(g *Gen) {
 			}
 			g.Emit("verify %s %s %s", hx(ms), hx(h), hx(pub))
 			_ = rel
-		default:
+		case 9:
 			c13TxCase(g)
+		default:
+			c13TypedTxCase(g)
 		}
 	}
 }
 
 type c13Runner struct{}
+
+func c13Lab(t []string) string {
+	if len(t) >= 4 {
+		return t[3]
+	}
+	return "-"
+}
 
 func c13ShowSig(s *crypto.Signature) string {
 	e := func(b []byte, err error) string {
@@ -456,9 +654,9 @@ func (c13Runner) Step(t []string, o *Oracle) string {
 						good = common.NewAccountAddressFromPublicKey(pk).String() == f[0] && strings.HasPrefix(f[0], "hx")
 					}
 				}
-				o.Check(good, "verified-without-matching-recovery", "Verify passed but recover(id, sig) is not from=%s", f[0])
+				o.Check(good, "unauthorized-transaction-verifies", "%s: Verify passed but recover(id, sig) is not from=%s: %s", c13Lab(t), f[0], unhx(t[1]))
 			} else {
-				o.Check(false, "verified-without-signature", "Verify passed without signature")
+				o.Check(false, "unauthorized-transaction-verifies", "%s: Verify passed without signature: %s", c13Lab(t), unhx(t[1]))
 			}
 		}
 		return got
